@@ -395,18 +395,29 @@ def run_property(mod, pid, tier, seed, replay=None):
         harness_ok = False
         rep.violation(e.what, {"broken": [e.what], "log": e.log}, False)
     # 3. cases
+    import traceback
     if runnable and harness_ok:
-        if replay:
-            r = json.load(open(replay))
-            cases = [Case(c["fn"], c["copy"], c["args"], c.get("tags", ()), c.get("exact", True)) for c in r.get("cases", [])]
-        else:
-            cases = list(mod.gen(tier, rng))
-        execute(mod, rep, cov, cases, tier, rng, verbose=bool(replay))
-    if hasattr(mod, "extra"):
         try:
-            mod.extra(rep, cov, tier, rng)
-        except BuildError as e:
-            rep.violation(e.what, {"broken": [e.what], "log": e.log}, False)
+            if replay:
+                r = json.load(open(replay))
+                cases = [Case(c["fn"], c["copy"], c["args"], c.get("tags", ()), c.get("exact", True)) for c in r.get("cases", [])]
+            else:
+                cases = list(mod.gen(tier, rng))
+            execute(mod, rep, cov, cases, tier, rng, verbose=bool(replay))
+        except subprocess.TimeoutExpired as e:
+            rep.violation("the crate did not answer within the time budget while cases were prepared (hang)",
+                          {"hang": "crate", "cmd": str(e.cmd)}, True)
+        except Exception:
+            rep.violation("the correspondence run could not be completed (unexpected answer from the crate or the model)",
+                          {"broken": ["correspondence run for %s" % pid], "traceback": traceback.format_exc()[-3000:]}, False)
+        if hasattr(mod, "extra") and not replay:
+            try:
+                mod.extra(rep, cov, tier, rng)
+            except subprocess.TimeoutExpired as e:
+                rep.violation("the crate did not answer within the time budget (hang)", {"hang": "crate", "cmd": str(e.cmd)}, True)
+            except Exception:
+                rep.violation("the oracle run could not be completed (unexpected answer from the crate)",
+                              {"broken": ["oracle run for %s" % pid], "traceback": traceback.format_exc()[-3000:]}, False)
     return rep.finish(cov, assumptions)
 
 
